@@ -298,7 +298,7 @@ func inv_Volatile_Merge_any(s *Volatile, r *Volatile) bool {
 }
 
 // the decoder of gossip payloads only ever builds a set whose values carry their header (what Merge relies on)
-// @ verify (*codecVolatile).DecodeTo pre=pre_codecVolatile_DecodeTo props=C09
+// @ verify (*codecVolatile).DecodeTo pre=pre_codecVolatile_DecodeTo props=C09 makebound=4096
 // @ loop (*codecVolatile).DecodeTo 0 inv inv_codecVolatile_DecodeTo modifies=*
 func pre_codecVolatile_DecodeTo(d *binary.Decoder) bool { return d != nil }
 func inv_codecVolatile_DecodeTo(out *Volatile) bool     { return out != nil && specWF(out.data) }
@@ -385,3 +385,11 @@ func specB2I(b bool) int {
 // same kind of contract: 1 153 paths and five minutes for a ONE-entry incoming set - outside the budget, not
 // claimed. Its writes go through store (contract above), its loop body is the code of Volatile.Merge, which the
 // bounded stand-in standinMerge11 covers.
+
+// SpecDataOf / SpecDataOfV expose the entry map of a volatile set to the contracts of package event (this file is
+// compiled under the verif tag only).
+func SpecDataOf(v *Volatile) map[string]Value { return v.data }
+func SpecDataOfV(v Volatile) map[string]Value { return v.data }
+
+// SpecSameDurable: the copy d is the durable set p (same database, same cache).
+func SpecSameDurable(d Durable, p *Durable) bool { return d.db == p.db && d.cache == p.cache }
